@@ -119,7 +119,7 @@ func checkC11(c *Ctx) *core.Result {
 	isTag, isAttr, ctx := a.Fn("xss.isBlackTag"), a.Fn("xss.isBlackAttr"), a.Fn("xss.ctx")
 	if isTag != nil && isAttr != nil {
 		n := nameComparisonRule(p, r, isTag, t, "N-a", true, nil) + nameComparisonRule(p, r, isAttr, t, "N-a", true, nil)
-		if n < 7 {
+		if n < 5 {
 			r.Fail("vacuity", "-", "name comparisons", "-", fmt.Sprintf("only %d", n))
 		}
 		minTag := 1 << 30
@@ -128,14 +128,15 @@ func checkC11(c *Ctx) *core.Result {
 				minTag = len(nn.Name)
 			}
 		}
-		rawLengthRule(p, r, isTag, minTag, "N-b")
+		maxTag, maxAttr := maxNameLens(t, isTag)
+		rawLengthRule(p, r, isTag, minTag, maxTag, "N-b")
 		minAttr := 1 << 30
 		for _, nn := range t.Blacks {
 			if len(nn.Name) < minAttr {
 				minAttr = len(nn.Name)
 			}
 		}
-		rawLengthRule(p, r, isAttr, minAttr, "N-b")
+		rawLengthRule(p, r, isAttr, minAttr, maxAttr, "N-b")
 	}
 	if ctx != nil {
 		// comparisons of comment prefixes in the classifier: case-folded (NUL-stripping is not promised there)
